@@ -12,4 +12,4 @@ Extraction "../ocaml/gen/model.ml" EncModel.url_encode EncModel.url_dec_buf EncM
    EncSpec.rfc4648 EncSpec.hex_spec EncSpec.url_safe
    TreeModel.check_model TreeModel.find_cost TreeModel.elements QTree.byte_cmp QTree.init QTree.step QTree.ncmp QTree.probe TreeSpec.sstep TreeSpec.sinit
    IniModel.ini_parse_str AconfModel.aconf_parse AconfModel.aconf_tokenize AconfModel.tk_buf AconfModel.is_str_number AconfModel.is_str_bool AconfModel.maxline
-   Consts.QCONF_MAX_SUBSTITUTIONS IniSpec.ini_wf IniSpec.ini_render IniSpec.ini_eval AconfSpec.aconf_render AconfSpec.aconf_srun AconfSpec.aconf_count AconfSpec.int_form AconfSpec.float_form AconfSpec.bool_form.
+   Consts.QCONF_MAX_SUBSTITUTIONS IniSpec.ini_wf IniSpec.ini_render IniSpec.ini_eval AconfSpec.wf_nodes AconfSpec.adepths AconfSpec.aconf_render AconfSpec.aconf_srun AconfSpec.aconf_count AconfSpec.int_form AconfSpec.float_form AconfSpec.bool_form.
